@@ -668,15 +668,6 @@ func (ck *checker) opError(what string, err *lisp.Err) {
 
 func slotOfTag(tag string) int { return slotOf(tag[0]) }
 
-// tagSpec returns the tuple part of a tag ("p-fixnum_u-3" -> "fixnum_u").
-func tagSpec(tag string) string {
-	tag = baseTag(tag)
-	if i := strings.LastIndexByte(tag, '-'); 2 < i {
-		return tag[2:i]
-	}
-	return ""
-}
-
 func baseTag(entry string) string {
 	entry = strings.TrimSuffix(entry, "-in")
 	entry = strings.TrimSuffix(entry, "-out")
